@@ -156,8 +156,11 @@ def symstr(s):
     return None if x is None else "".join(x)
 
 
-def peg_tree(e):
-    """an expression tree in exactly the record shape spec/Peg.tla builds (strings over the model alphabet); None if not expressible"""
+def peg_tree(e, symstr=None):
+    """an expression tree in exactly the record shape spec/Peg.tla builds (strings over the model alphabet, or as they are with
+    symstr = the identity); None if not expressible"""
+    if symstr is None:
+        symstr = globals()["symstr"]
     t = e["t"]
     if t == "match":
         path = [symstr(p) for p in e["sel"]["path"]]
@@ -168,14 +171,14 @@ def peg_tree(e):
         ty = "ptr" if path[0] == "not" else e["sel"]["ty"]       # the renderer spells a selector starting with the word not as a JSON Pointer
         return {"t": "match", "sel": {"ty": ty, "path": path}, "op": e["op"], "val": val if hv else "", "hv": hv}
     if t == "not":
-        x = peg_tree(e["e"])
+        x = peg_tree(e["e"], symstr)
         return None if x is None else {"t": "not", "e": x}
     if t in ("and", "or"):
-        l, r = peg_tree(e["l"]), peg_tree(e["r"])
+        l, r = peg_tree(e["l"], symstr), peg_tree(e["r"], symstr)
         return None if l is None or r is None else {"t": t, "l": l, "r": r}
     if t == "coll":
         path = [symstr(p) for p in e["sel"]["path"]]
-        x = peg_tree(e["e"])
+        x = peg_tree(e["e"], symstr)
         if None in path or x is None:
             return None
         return {"t": "coll", "op": e["op"], "sel": {"ty": "ptr" if path[0] == "not" else e["sel"]["ty"], "path": path}, "mode": e["mode"], "n1": e["n1"], "n2": e["n2"], "e": x}
